@@ -175,6 +175,8 @@ type vRig struct {
 	gateArmed bool
 	gateAt    chan struct{}
 	gateGo    chan struct{}
+	hGate     bool                  // hold every handler goroutine at dh.start
+	hGateGo   map[int]chan struct{} // session -> release
 
 	polls     chan *vPoll
 	answers   chan *vAnswer
@@ -250,6 +252,9 @@ func (r *vRig) hook(point string, args ...interface{}) {
 		s, _ := strconv.Atoi(strings.TrimPrefix(lbl, "s"))
 		r.lastOnDC = s
 		e["s"] = s
+	case "dh.start":
+		// the handler goroutine is spawned by the callback that has just logged rs.ondc
+		r.handlerG[gid] = r.lastOnDC
 	case "dh.dial":
 		us, _ := args[0].(string)
 		e["url"] = us
@@ -274,7 +279,16 @@ func (r *vRig) hook(point string, args ...interface{}) {
 	}
 	r.logLocked(e)
 	gate := point == "rs.dctimeout" && r.gateArmed
+	var hg chan struct{}
+	if point == "dh.start" && r.hGate {
+		hg = make(chan struct{})
+		r.hGateGo[r.handlerG[gid]] = hg
+		r.cond.Broadcast()
+	}
 	r.mu.Unlock()
+	if hg != nil {
+		<-hg // gate: before the handler decides whether the slot is its own
+	}
 	if gate {
 		// gate: hold the main loop at the start of its timeout branch until the
 		// scheduler releases it (outside every lock of the code under test)
@@ -626,7 +640,7 @@ func vNewRig(t *testing.T) *vRig {
 		t.Fatalf("out: %v", err)
 	}
 	r := &vRig{t: t, plan: plan, t0: time.Now(), outf: f, out: bufio.NewWriter(f),
-		handlerG: map[int64]int{}, sidOf: map[string]int{}, gateAt: make(chan struct{}, 1), gateGo: make(chan struct{}),
+		handlerG: map[int64]int{}, hGateGo: map[int]chan struct{}{}, sidOf: map[string]int{}, gateAt: make(chan struct{}, 1), gateGo: make(chan struct{}),
 		polls: make(chan *vPoll, 4), answers: make(chan *vAnswer, 4), relayReqs: make(chan *vRelayReq, 16),
 		relays: map[int]*vRelayConn{}, clients: map[int]*vClient{}, ansOf: map[int]string{},
 		listeners: map[string]net.Listener{}, rng: plan.Seed*2654435761 + 12345}
